@@ -102,7 +102,7 @@ Definition restart_chan (ch : chan) : chan :=
          (c_queue ch ++ map i_msg (c_ifl ch) ++ map d_msg (c_dfr ch)) [] [] [] 0 0 0
          (c_fin ch) (c_emptied ch) (c_lost ch).
 Definition restart_topic (tp : topic) : topic :=
-  mkTopic (t_id tp) false (t_paused tp) (t_queue tp)
+  mkTopic (t_id tp) false (t_paused tp) (map (fun m => mkMsg (m_id m) (m_att m) 0%Z) (t_queue tp)) 0
           (map restart_chan (filter (fun ch => negb (c_eph ch)) (t_chans tp))) 0 0 (t_lost tp).
 Definition restart (s : state) : state :=
   mkState (map restart_topic (filter (fun tp => negb (t_eph tp)) (s_topics s))) [].
@@ -207,12 +207,15 @@ Record ledger := mkL {
   g_ch : list chled; g_tp : list tled; g_kl : list kled;
   g_last : option (list tsnap * list ksnap);
   g_prev_failed : bool;            (* the previous op was a refused FIN/REQ/TOUCH: next snapshot must equal g_last *)
-  g_flags : list N                 (* violated property numbers *)
+  g_flags : list N;                (* violated property numbers *)
+  g_gone : list (N * N);           (* ephemeral channels whose last consumer left: must be absent from the next snapshot *)
+  g_idx : N;                       (* index of the event being processed (diagnostics) *)
+  g_where : list (N * N)           (* (event index, property) of each violation (diagnostics) *)
 }.
-#[export] Instance eta_l : Settable _ := settable! mkL <g_ch; g_tp; g_kl; g_last; g_prev_failed; g_flags>.
+#[export] Instance eta_l : Settable _ := settable! mkL <g_ch; g_tp; g_kl; g_last; g_prev_failed; g_flags; g_gone; g_idx; g_where>.
 
 Definition flag (p : N) (ok : bool) (g : ledger) : ledger :=
-  if ok then g else g <| g_flags ::= cons p |>.
+  if ok then g else g <| g_flags ::= cons p |> <| g_where ::= cons (g_idx g, p) |>.
 
 Definition find_cl (g : ledger) (t c : N) : option chled :=
   find (fun x => (l_t x =? t) && (l_c x =? c)) (g_ch g).
@@ -365,10 +368,27 @@ Definition mon_op (g : ledger) (o : op) (r : resp) : ledger :=
   | OCls k, ROk => upd_kl g k (fun x => x <| kl_closing := true |> <| kl_rdy := 0%Z |>)
   | ODisconnect k, _ =>
       let g := match find_kl g k with
-               | Some kl => match kl_sub kl with
-                            | Some (t, c) => upd_cl g t c (fun cl => cl <| l_clients ::= filter (fun x => negb (x =? k)) |>)
-                            | None => g
-                            end
+               | Some kl =>
+                   match kl_sub kl with
+                   | Some (t, c) =>
+                       let g := upd_cl g t c (fun cl => cl <| l_clients ::= filter (fun x => negb (x =? k)) |>) in
+                       (* C08: an ephemeral channel goes away with its last consumer, an
+                          ephemeral topic with its last channel *)
+                       match find_cl g t c with
+                       | Some cl =>
+                           if l_eph cl && kl_alive kl && match l_clients cl with [] => true | _ => false end then
+                             let g := g <| g_ch ::= filter (fun x => negb ((l_t x =? t) && (l_c x =? c))) |>
+                                        <| g_gone ::= cons (t, c) |> in
+                             match find_tl g t with
+                             | Some tl => if tl_eph tl && negb (existsb (fun x => l_t x =? t) (g_ch g))
+                                          then g <| g_tp ::= filter (fun x => negb (tl_id x =? t)) |> else g
+                             | None => g
+                             end
+                           else g
+                       | None => g
+                       end
+                   | None => g
+                   end
                | None => g
                end in
       upd_kl g k (fun x => x <| kl_alive := false |>)
@@ -384,7 +404,13 @@ Definition mon_op (g : ledger) (o : op) (r : resp) : ledger :=
                | None => 0
                end in
       upd_cl g t c (fun cl => (discard_all cl) <| l_emptied ::= N.add n |>)
-  | ODeleteChan t c, ROk => g <| g_ch ::= filter (fun x => negb ((l_t x =? t) && (l_c x =? c))) |>
+  | ODeleteChan t c, ROk =>
+      let g := g <| g_ch ::= filter (fun x => negb ((l_t x =? t) && (l_c x =? c))) |> in
+      match find_tl g t with
+      | Some tl => if tl_eph tl && negb (existsb (fun x => l_t x =? t) (g_ch g))
+                   then g <| g_tp ::= filter (fun x => negb (tl_id x =? t)) |> else g
+      | None => g
+      end
   | ODeleteTopic t, ROk =>
       (g <| g_ch ::= filter (fun x => negb (l_t x =? t)) |>) <| g_tp ::= filter (fun x => negb (tl_id x =? t)) |>
   | _, _ => g
@@ -464,7 +490,9 @@ Definition mon_snap (g : ledger) (ts : list tsnap) (ks : list ksnap) : ledger :=
            else g in
   (* C08: after an empty the channel holds nothing; after a delete it is gone
      (checked where the op happened: see mon_after) *)
-  (g <| g_last := Some (ts, ks) |>) <| g_prev_failed := false |>.
+  (* C08: ephemeral channels that lost their last consumer are gone *)
+  let g := flag 8 (forallb (fun tc => match snap_chan ts (fst tc) (snd tc) with None => true | Some _ => false end) (g_gone g)) g in
+  ((g <| g_last := Some (ts, ks) |>) <| g_prev_failed := false |>) <| g_gone := [] |>.
 
 (* checks that need the snapshot FOLLOWING an op *)
 Definition mon_after (prev : option event) (g : ledger) (ts : list tsnap) (ks : list ksnap) : ledger :=
@@ -521,6 +549,7 @@ Fixpoint mon_run (g : ledger) (prev : option event) (after_restart : bool) (evs 
   match evs with
   | [] => g
   | e :: rest =>
+      let g := g <| g_idx ::= N.succ |> in
       match e with
       | EOp o r => mon_run (mon_op g o r) (Some e) after_restart rest
       | EExpired t c infl ids => mon_run (mon_expired g t c infl ids) prev after_restart rest
@@ -542,10 +571,12 @@ Definition mon_final (g : ledger) : ledger :=
                              match l_owed cl with [] => true | _ => false end) (g_ch g)) g.
 
 Definition flags_of (c : case) : list N :=
-  g_flags (mon_final (mon_run (mkL [] [] [] None false []) None false (events c))).
+  g_flags (mon_final (mon_run (mkL [] [] [] None false [] [] 0 []) None false (events c))).
 
 Definition monitor (p : N) (c : case) : bool := negb (mem_n p (flags_of c)).
 
 Definition judge_for (p : N) (c : case) : N := verdict (agree c) (monitor p c).
 
 Definition diag (c : case) : N * list N := (replay_diag (cfg c) init None (events c) 0, flags_of c).
+Definition mon_where (c : case) : list (N * N) :=
+  g_where (mon_final (mon_run (mkL [] [] [] None false [] [] 0 []) None false (events c))).
